@@ -216,6 +216,8 @@ def add_script(rng, scenario, strat, mix=None):
                     a = {"op": "txn", "acts": subs}
                     if rng.random() < 0.3:
                         a["exec_after"] = [rng.randrange(len(subs))]
+                    if rng.random() < m.get("p_txn_propagate", 0.0):
+                        a["propagate"] = True
                 else:
                     a = gen_other(rng, market, upd, m, kind, n_created)
                 acts.append(a)
